@@ -738,9 +738,13 @@ def table_ops(lengths):
     return [[k, l] for l in lengths for k in ("w2p", "p2w", "strict", "basis")]
 
 
+_CODE = {}
+
+
 def fresh_library():
-    """Re-execute the two modules.  Returns False (after clearing what can be cleared) if that is
-    not possible."""
+    """Re-execute the two modules in place (what importlib.reload does, with the compiled source
+    kept between histories).  Returns False (after clearing what can be cleared) if that is not
+    possible."""
     import importlib
     import sys
     try:
@@ -748,8 +752,13 @@ def fresh_library():
             mod = sys.modules.get(name)
             if mod is None:
                 importlib.import_module(name)
-            else:
-                importlib.reload(mod)
+                continue
+            code = _CODE.get(name)
+            if code is None:
+                path = mod.__file__
+                with open(path, "rb") as fh:
+                    code = _CODE[name] = compile(fh.read(), path, "exec", dont_inherit=True)
+            exec(code, mod.__dict__)
         return True
     except Exception:  # noqa
         clear_table_caches(_PW())
@@ -1231,7 +1240,7 @@ def run(ctx, only=None):
         ctx.pmap(shard_fresh, [c for c in split(hs, 32) if c])
         ctx.bounds["history"] = {
             "menu": menu, "depth": depth, "states_per_depth": per_depth,
-            "reset": "importlib.reload of pinword_util and pin_words before every history",
+            "reset": "pinword_util and pin_words re-executed (as importlib.reload does) before every history",
             "after_every_step": "the operation's own answer and every table built so far, in full",
             "canonical_state": "contents of built tables, lru cache sizes, module/class level "
                                "containers and instances, default arguments, closure cells",
